@@ -155,7 +155,7 @@ func vf18DrawTicketOps(rt *rapid.T, label string, n int, pool []string, holding 
 	for i := 0; i < n; i++ {
 		if rapid.IntRange(0, 9).Draw(rt, label+"-kind") < 6 {
 			addr := rapid.SampledFrom(pool).Draw(rt, label+"-addr")
-			k := rapid.Uint64().Draw(rt, label+"-ticket")
+			k := uint64(rapid.IntRange(0, 4095).Draw(rt, label+"-ticket"))
 			ops = append(ops, vf18TicketOp{Op: "store", Addr: addr, Raw: hex.EncodeToString(detrand.Bytes(k, ticketKeyLength+ticketLength))})
 			holding[addr] = true
 			continue
@@ -184,9 +184,15 @@ var (
 
 func TestVerifC18CrashTickets(t *testing.T) {
 	e := ev.For("C18")
-	e.Rule("crash-tickets: a pre-state of 0-5 storeTicket/getTicket operations is built in-process, then the helper (re-executed test binary under strace) loads the store and runs 1-6 generated operations over a pool of 1-4 addresses (IPv4 and IPv6); crash states = every prefix of the recorded calls + torn prefixes of every write (all lengths <= 512 bytes, boundaries and a spread above; thorough: all lengths); on every crash state loadTicketStore and Transport.ClientFactory run in-process; non-trivial = crash state whose directory content differs from both the pre-run and the post-run directory; fingerprint = (pre-state, operations, call index, torn length)")
+	e.Rule("crash-tickets: a pre-state of 0-5 storeTicket/getTicket operations is built in-process, then the helper (re-executed test binary under strace) loads the store and runs 1-6 (thorough: 1-12) generated operations over a pool of 1-4 (thorough: 1-6) addresses (IPv4 and IPv6); crash states = every prefix of the recorded calls + torn prefixes of every write (all lengths <= 512 bytes, boundaries and a spread above; thorough: all lengths); on every crash state loadTicketStore and Transport.ClientFactory run in-process; non-trivial = crash state whose directory content differs from both the pre-run and the post-run directory; fingerprint = (pre-state, operations, call index, torn length)")
 	e.Assume("crash model: the process is killed; completed system calls persist in program order; a single write may be torn at any byte; fsync is a no-op (no power loss, no reordering of completed calls)")
+	e.Floor("crash-tickets-torn-write/crash-tickets", 0.5)
+	e.Floor("crash-tickets-during-get/crash-tickets", 0.01)
 	tornAll := ev.Thorough()
+	maxOps, maxPool := 6, 4
+	if tornAll {
+		maxOps, maxPool = 12, 6
+	}
 	rapid.Check(t, func(rt *rapid.T) {
 		root := ""
 		if d, err := os.MkdirTemp("/dev/shm", "vf18-probe-*"); err == nil {
@@ -205,7 +211,7 @@ func TestVerifC18CrashTickets(t *testing.T) {
 		if err := os.Mkdir(dir, 0o700); err != nil {
 			vf18Inconclusive("mkdir: %v", err)
 		}
-		pool := []string{"192.0.2.1:443", "192.0.2.1:9001", "[2001:db8::7]:443", "198.51.100.23:80"}[:rapid.IntRange(1, 4).Draw(rt, "pool")]
+		pool := []string{"192.0.2.1:443", "192.0.2.1:9001", "[2001:db8::7]:443", "198.51.100.23:80", "[2001:db8::7]:9001", "203.0.113.200:65535"}[:rapid.IntRange(1, maxPool).Draw(rt, "pool")]
 
 		// pre-state, in-process
 		holding := map[string]bool{}
@@ -218,7 +224,7 @@ func TestVerifC18CrashTickets(t *testing.T) {
 			vf18ApplyTicketOp(s, op)
 		}
 		model := vf18StoreContent(s)
-		ops := vf18DrawTicketOps(rt, "run", rapid.IntRange(1, 6).Draw(rt, "nops"), pool, holding)
+		ops := vf18DrawTicketOps(rt, "run", rapid.IntRange(1, maxOps).Draw(rt, "nops"), pool, holding)
 		desc := fmt.Sprintf("pre-state %v (built by %v); traced operations %v", model, preOps, ops)
 
 		// models before/after each traced operation
